@@ -1,6 +1,6 @@
 (** C02 — Session delivery: no event lost, duplicated or reordered within a writer. *)
 From Coq Require Import List ZArith NArith Bool.
-From BL Require Import Base.Bytes Reader.Entry Queue.QueueModel Queue.QueueInv Session.SessionModel Session.SessionInv Session.SessionProps Gen.SrcFacts.
+From BL Require Import Base.Bytes Reader.Entry Queue.QueueModel Queue.QueueInv Session.SessionModel Session.SessionInv Session.SessionProps Session.SessionRemoval Gen.SrcFacts.
 Import ListNotations.
 Local Open Scope Z_scope.
 
@@ -22,6 +22,38 @@ Theorem C02_closed_channel_drained : forall q q' p1 p2, Inv q -> cread (length (
   ((lenN p1 + lenN p2 = 0)%N -> sT (r_new q) = lenS q).
 Proof. exact closed_channel_drained. Qed.
 Print Assumptions C02_closed_channel_drained.
+
+(** (2') ... and this for the whole session: in EVERY reachable state (any history of writers created, moved onto larger queues, destroyed,
+    log calls, sources, clock syncs, earlier consumes with lock-free writer actions inside them) and for EVERY schedule of writer actions
+    inside the next consume, every channel that consume removes has released offset = committed length: each byte ever committed to it was
+    handed to the output by some poll (and by C01 exactly once, in order). No accepted event leaves the session undelivered. *)
+Theorem C02_no_event_lost_at_removal : forall cs ops plans, Forall sop_rm ops ->
+  let s := fst (srun SrcFacts.sess_fence_after_closed_test (sess_init cs) ops) in
+  Forall (fun c => all_delivered (ch_q c)) (consume_removed s plans).
+Proof.
+  generalize (eq_refl : SrcFacts.sess_fence_after_closed_test = true). generalize SrcFacts.sess_fence_after_closed_test. intros b_ ->.
+  generalize (eq_refl : SrcFacts.sess_consume_order = true). generalize SrcFacts.sess_consume_order. intros b2 ->.
+  exact no_event_lost_at_removal.
+Qed.
+Print Assumptions C02_no_event_lost_at_removal.
+
+(** (2'') timeliness: in every reachable state, a consume during which no writer acts and whose polls see the writers' last commits (the
+    case of a consume that starts after the writers' calls returned) leaves NOTHING undelivered in any channel: every event accepted so
+    far has been written, "at the latest in the first consume that starts after the writer's last call returned" *)
+Theorem C02_timely_delivery : forall cs ops plans, Forall sop_rm ops -> quiet plans ->
+  let s := fst (srun SrcFacts.sess_fence_after_closed_test (sess_init cs) ops) in
+  (forall j b, nth_error (channels s) j = Some b -> (length (Wpend (ch_q b)) <= pl_k (plan_nth plans j))%nat) ->
+  forall c, In c (channels (fst (fst (consume SrcFacts.sess_fence_after_closed_test s plans)))) -> all_delivered (ch_q c).
+Proof.
+  generalize (eq_refl : SrcFacts.sess_fence_after_closed_test = true). generalize SrcFacts.sess_fence_after_closed_test. intros b_ ->.
+  exact timely_delivery.
+Qed.
+Print Assumptions C02_timely_delivery.
+Example C02_removal_nonvacuous :
+  Forall sop_rm rm_ops /\
+  let s := fst (srun true (sess_init default_cs) rm_ops) in
+  length (channels s) = 3%nat /\ length (consume_removed s []) = 2%nat /\ length (channels (fst (fst (consume true s [])))) = 1%nat.
+Proof. exact rm_nonvacuous. Qed.
 
 (** (3) the same model WITHOUT the fence (the tree before the D7 fix; the fact below is read off Session.hpp) loses an
     accepted event: a concrete history and reads-from choice *)
